@@ -240,6 +240,27 @@ func Check(t *testing.T, leg string, prop func(rt *rapid.T, rec *Rec)) {
 	_ = os.RemoveAll("testdata/rapid")
 	rapid.Check(t, func(rt *rapid.T) {
 		rec := &Rec{leg: l}
+		defer func() {
+			// A panic that is not rapid's own control flow comes from the code under test (or from harness
+			// set-up that the code under test made fail): it is a violation with the current history, not an
+			// infrastructure problem. The harness never panics on the unchanged tree.
+			if r := recover(); r != nil {
+				if tn := fmt.Sprintf("%T", r); !strings.HasPrefix(tn, "rapid.") && !strings.HasPrefix(tn, "*rapid.") {
+					msg := fmt.Sprint(r)
+					first := msg
+					if i := strings.IndexByte(first, '\n'); i >= 0 {
+						first = first[:i]
+					}
+					if len(first) > 80 {
+						first = first[:80]
+					}
+					failMu.Lock()
+					lastFail = &Failure{Prop: Prop(), Leg: leg, Sig: "panic:" + strings.ReplaceAll(first, " ", "_"), Msg: msg + "\n" + string(debug.Stack()), Steps: append([]any(nil), rec.Steps...)}
+					failMu.Unlock()
+				}
+				panic(r)
+			}
+		}()
 		prop(rt, rec)
 		l.record(rec)
 	})
@@ -296,7 +317,15 @@ func Replay(t *testing.T, leg string, interp func(steps []json.RawMessage) (sig,
 	if f.Leg != leg {
 		t.Skip("other leg")
 	}
-	sig, msg := interp(f.Steps)
+	var sig, msg string
+	func() {
+		defer func() {
+			if r := recover(); r != nil {
+				sig, msg = "panic", fmt.Sprint(r)
+			}
+		}()
+		sig, msg = interp(f.Steps)
+	}()
 	if sig != "" {
 		fmt.Printf("VIOLATION property=%s replay=%s sig=%s\n", Prop(), p, sig)
 		fmt.Printf("DETAIL %s\n", strings.ReplaceAll(msg, "\n", " | "))
